@@ -63,3 +63,61 @@ Section Islands.
     - intros H. destruct (solver_to_graph _ H) as [w [Hw [E R]]]. apply pos_inj in E; auto. now subst.
   Qed.
 End Islands.
+
+(* ------------------------------------------------------------------ the same over C04's table-level pit model:
+   the branch pit [C04.mk_branches js tabs] of junction labels js and branch tables tabs HAS the shape assumed above
+   when every row is in service, undirected and no flow-return connection; positions come from the solver's own
+   index lookup, which is injective on js and below length js (C06.pos_of_label) *)
+From PP Require C06.Model C06.ProofsExtract.
+Section Pit.
+  Variable js : list Z.
+  Variable tabs : list (list S.brow).
+  Variable seeds : list Z.
+  Variables nact slack : list bool.
+
+  Definition pit_pos : Z -> nat := S.pos_of (PP.C06.Model.mk_index_lookup js 0%Z).
+  Definition edge_of (r : S.brow) : edge := mkE (S.r_from r) (S.r_to r) EmptyString (S.r_label r) 0%Z.
+  Definition pit_edges : list edge := map edge_of (concat tabs).
+
+  Hypothesis js_unique : NoDup js.
+  Hypothesis rows_plain : forall r, In r (concat tabs) ->
+    S.r_active r = true /\ S.r_directed r = false /\ S.r_frc r = false.
+  Hypothesis ends_exist : forall r, In r (concat tabs) -> In (S.r_from r) js /\ In (S.r_to r) js.
+  Hypothesis seeds_in : forall s, In s seeds -> In s js.
+  Hypothesis nact_all : forall x, In x js -> S.nthb nact (pit_pos x) = true.
+  Hypothesis slack_iff : forall i, S.nthb slack i = true <-> exists s, In s seeds /\ pit_pos s = i.
+
+  Lemma pit_shape : S.mk_branches js tabs = bs pit_edges pit_pos.
+  Proof.
+    unfold S.mk_branches, bs, pit_edges. rewrite map_map. apply map_ext_in. intros r Hr.
+    destruct (rows_plain r Hr) as [A [D F]]. unfold branch_of, edge_of, pit_pos. simpl. now rewrite A, D, F.
+  Qed.
+
+  Lemma pit_pos_lt x : In x js -> (pit_pos x < length js)%nat.
+  Proof.
+    intros H. destruct (PP.C06.ProofsExtract.pos_of_label js x js_unique H) as [r [Hr [_ E]]].
+    unfold pit_pos, S.pos_of. now rewrite E.
+  Qed.
+
+  Lemma pit_pos_inj x y : In x js -> In y js -> pit_pos x = pit_pos y -> x = y.
+  Proof.
+    intros Hx Hy E. destruct (PP.C06.ProofsExtract.pos_of_label js x js_unique Hx) as [r [_ [Nx Ex]]].
+    destruct (PP.C06.ProofsExtract.pos_of_label js y js_unique Hy) as [r' [_ [Ny Ey]]].
+    unfold pit_pos, S.pos_of in E. rewrite Ex, Ey in E. subst r'. congruence.
+  Qed.
+
+  Theorem components_eq_islands_pit v : In v js ->
+    (Reach pit_edges seeds v <->
+     S.nthb (fst (S.search_hyd (length js) (S.mk_branches js tabs) (map S.b_active (S.mk_branches js tabs)) nact slack))
+            (pit_pos v) = true).
+  Proof.
+    intros Hv. rewrite pit_shape.
+    assert (Hends : forall e, In e pit_edges -> In (e_u e) js /\ In (e_v e) js).
+    { intros e He. unfold pit_edges in He. apply in_map_iff in He. destruct He as [r [<- Hr]]. simpl. now apply ends_exist. }
+    rewrite (components_eq_islands pit_edges js seeds pit_pos (length js) nact slack
+               pit_pos_inj pit_pos_lt Hends seeds_in nact_all slack_iff v Hv).
+    rewrite SC.search_hyd_eq. simpl fst. symmetry. apply SC.hnc_iff_hreach.
+    intros b Hb. unfold bs in Hb. apply in_map_iff in Hb. destruct Hb as [e [<- He]]. destruct (Hends e He).
+    simpl. split; now apply pit_pos_lt.
+  Qed.
+End Pit.
